@@ -16,26 +16,27 @@ Inductive snap :=
         tips tips_floor tips_scaled tips_entries
         dispute bridge tbr feecoll
         bonded bonded_ledger notbonded notbonded_ledger : Z)
-       (shares_pos tokens_nonneg : bool).
+       (shares_pos tokens_nonneg credits_nonneg : bool).
 
-Definition sp_supply s := let 'Snap x _ _ _ _ _ _ _ _ _ _ _ _ _ _ _ _ _ := s in x.
-Definition sp_balsum s := let 'Snap _ x _ _ _ _ _ _ _ _ _ _ _ _ _ _ _ _ := s in x.
-Definition sp_oracle s := let 'Snap _ _ x _ _ _ _ _ _ _ _ _ _ _ _ _ _ _ := s in x.
-Definition sp_oracle_owed s := let 'Snap _ _ _ x _ _ _ _ _ _ _ _ _ _ _ _ _ _ := s in x.
-Definition sp_tips s := let 'Snap _ _ _ _ x _ _ _ _ _ _ _ _ _ _ _ _ _ := s in x.
-Definition sp_tips_floor s := let 'Snap _ _ _ _ _ x _ _ _ _ _ _ _ _ _ _ _ _ := s in x.
-Definition sp_tips_scaled s := let 'Snap _ _ _ _ _ _ x _ _ _ _ _ _ _ _ _ _ _ := s in x.
-Definition sp_tips_entries s := let 'Snap _ _ _ _ _ _ _ x _ _ _ _ _ _ _ _ _ _ := s in x.
-Definition sp_dispute s := let 'Snap _ _ _ _ _ _ _ _ x _ _ _ _ _ _ _ _ _ := s in x.
-Definition sp_bridge s := let 'Snap _ _ _ _ _ _ _ _ _ x _ _ _ _ _ _ _ _ := s in x.
-Definition sp_tbr s := let 'Snap _ _ _ _ _ _ _ _ _ _ x _ _ _ _ _ _ _ := s in x.
-Definition sp_feecoll s := let 'Snap _ _ _ _ _ _ _ _ _ _ _ x _ _ _ _ _ _ := s in x.
-Definition sp_bonded s := let 'Snap _ _ _ _ _ _ _ _ _ _ _ _ x _ _ _ _ _ := s in x.
-Definition sp_bonded_ledger s := let 'Snap _ _ _ _ _ _ _ _ _ _ _ _ _ x _ _ _ _ := s in x.
-Definition sp_notbonded s := let 'Snap _ _ _ _ _ _ _ _ _ _ _ _ _ _ x _ _ _ := s in x.
-Definition sp_notbonded_ledger s := let 'Snap _ _ _ _ _ _ _ _ _ _ _ _ _ _ _ x _ _ := s in x.
-Definition sp_shares_pos s := let 'Snap _ _ _ _ _ _ _ _ _ _ _ _ _ _ _ _ x _ := s in x.
-Definition sp_tokens_nonneg s := let 'Snap _ _ _ _ _ _ _ _ _ _ _ _ _ _ _ _ _ x := s in x.
+Definition sp_supply s := let 'Snap x _ _ _ _ _ _ _ _ _ _ _ _ _ _ _ _ _ _ := s in x.
+Definition sp_balsum s := let 'Snap _ x _ _ _ _ _ _ _ _ _ _ _ _ _ _ _ _ _ := s in x.
+Definition sp_oracle s := let 'Snap _ _ x _ _ _ _ _ _ _ _ _ _ _ _ _ _ _ _ := s in x.
+Definition sp_oracle_owed s := let 'Snap _ _ _ x _ _ _ _ _ _ _ _ _ _ _ _ _ _ _ := s in x.
+Definition sp_tips s := let 'Snap _ _ _ _ x _ _ _ _ _ _ _ _ _ _ _ _ _ _ := s in x.
+Definition sp_tips_floor s := let 'Snap _ _ _ _ _ x _ _ _ _ _ _ _ _ _ _ _ _ _ := s in x.
+Definition sp_tips_scaled s := let 'Snap _ _ _ _ _ _ x _ _ _ _ _ _ _ _ _ _ _ _ := s in x.
+Definition sp_tips_entries s := let 'Snap _ _ _ _ _ _ _ x _ _ _ _ _ _ _ _ _ _ _ := s in x.
+Definition sp_dispute s := let 'Snap _ _ _ _ _ _ _ _ x _ _ _ _ _ _ _ _ _ _ := s in x.
+Definition sp_bridge s := let 'Snap _ _ _ _ _ _ _ _ _ x _ _ _ _ _ _ _ _ _ := s in x.
+Definition sp_tbr s := let 'Snap _ _ _ _ _ _ _ _ _ _ x _ _ _ _ _ _ _ _ := s in x.
+Definition sp_feecoll s := let 'Snap _ _ _ _ _ _ _ _ _ _ _ x _ _ _ _ _ _ _ := s in x.
+Definition sp_bonded s := let 'Snap _ _ _ _ _ _ _ _ _ _ _ _ x _ _ _ _ _ _ := s in x.
+Definition sp_bonded_ledger s := let 'Snap _ _ _ _ _ _ _ _ _ _ _ _ _ x _ _ _ _ _ := s in x.
+Definition sp_notbonded s := let 'Snap _ _ _ _ _ _ _ _ _ _ _ _ _ _ x _ _ _ _ := s in x.
+Definition sp_notbonded_ledger s := let 'Snap _ _ _ _ _ _ _ _ _ _ _ _ _ _ _ x _ _ _ := s in x.
+Definition sp_shares_pos s := let 'Snap _ _ _ _ _ _ _ _ _ _ _ _ _ _ _ _ x _ _ := s in x.
+Definition sp_tokens_nonneg s := let 'Snap _ _ _ _ _ _ _ _ _ _ _ _ _ _ _ _ _ x _ := s in x.
+Definition sp_credits_nonneg s := let 'Snap _ _ _ _ _ _ _ _ _ _ _ _ _ _ _ _ _ _ x := s in x.
 
 Inductive hstep :=
 | Step (op : string) (signer result : Z) (params : list Z) (after : snap) (decreased : list (Z * string * string)).
@@ -211,4 +212,8 @@ Definition c19_step (_ : snap) (s : hstep) : issues :=
 Definition c19_hist_check (c : hist_case) : issues :=
   let 'Hist init steps := c in walk c19_step init steps.
 
-Definition hist_classes (c : hist_case) : list string := [].
+(* finding F06 (C09): a commission rate outside [0,1] is accepted and makes a selector's credit negative;
+   the other selectors are then credited more than was paid in *)
+Definition hist_classes (c : hist_case) : list string :=
+  let 'Hist init steps := c in
+  if forallb (fun s => sp_credits_nonneg (st_after s)) steps then [] else ["F06"%string].
